@@ -302,6 +302,16 @@ func cmdRun(args []string) {
 	for k, r := range runs {
 		cfg := &interp.Config{Prog: prog, Pkg: pkg, Entry: r.Entry, Args: r.Args, Workers: *workers, Solver: *solver,
 			NoPanic: !r.AllowPanic, MaxPaths: r.MaxPaths, MaxSamples: 6, SampleEvery: 13 + seed%7, NoFastPath: os.Getenv("VERIF_NOFAST") != ""}
+		// per-harness wall-clock limit (quick 12 min, thorough 100 min; VERIF_HARNESS_TIMEOUT seconds): a harness
+		// that does not finish is inconclusive, the other harnesses of the property still run and report
+		limit := 12 * time.Minute
+		if *tier == "thorough" {
+			limit = 100 * time.Minute
+		}
+		if v, err := strconv.Atoi(os.Getenv("VERIF_HARNESS_TIMEOUT")); err == nil && v > 0 {
+			limit = time.Duration(v) * time.Second
+		}
+		cfg.Deadline = time.Now().Add(limit)
 		res := interp.Explore(cfg)
 		he := harnessEvidence{Harness: r.Entry, Args: r.Args, Bound: r.Bound, Paths: res.Stats.Paths, PathsByEnd: res.PathsByEnd,
 			Decisions: res.Stats.Decisions, Checks: res.Stats.Checks, CheckQueries: res.Stats.CheckQueries,
